@@ -25,7 +25,7 @@ def showEvents (evs : List Event) : String :=
     | e :: r, txt, acc =>
       let acc := if txt.isEmpty then acc else ("t:" ++ showCps txt.reverse) :: acc
       let s := match e with
-        | .start n as => ":".intercalate (("s:" ++ showCps n) :: as.flatMap (fun kv => [showCps kv.1, showCps kv.2]))
+        | .start n as => ":".intercalate (("s:" ++ showCps n) :: (sortAttrs as).flatMap (fun kv => [showCps kv.1, showCps kv.2]))
         | .stop n => "e:" ++ showCps n
         | .comment t => "m:" ++ showCps t
         | .pi t d => "p:" ++ showCps t ++ ":" ++ showCps d
